@@ -2588,6 +2588,9 @@ class Discriminator(Required):
         else: throw(TypeError, "Discriminator value for entity %s "
                                "with custom discriminator column '%s' of '%s' type is not set"
                                % (entity.__name__, attr.name, attr.py_type.__name__))
+        prev = attr.code2cls.get(discr_value)
+        if prev is not None and prev is not entity: throw(ERDiagramError,
+            'Discriminator value %r of entity %s is already used by entity %s' % (discr_value, entity.__name__, prev.__name__))
         attr.code2cls[discr_value] = entity
     def validate(attr, val, obj=None, entity=None, from_db=False):
         if from_db:
